@@ -1,5 +1,5 @@
 from .. import facts
-from ..rules import sampling, codec
+from ..rules import filt, sampling, codec
 
 
 def run(ck):
@@ -9,3 +9,5 @@ def run(ck):
     codec.r10_bilinear_weight(ck, P)
     sampling.r3_iter_instantiation(ck, P)
     sampling.r4_enum_exhaustive(ck, P)
+    filt.r_axis_consistency(ck, P, 'C08-R5')
+    sampling.r6_coordinate_siblings(ck, P)
